@@ -15,8 +15,20 @@
  */
 #include <printf/printf.h>
 #include <gpc/string.h>
+#include <gpc/bytes.h>
+#include <gpc/io.h>
 #include <gpc/memory.h>
 #include "proto.h"
+
+/*   pf print <fn> <n> <obj>...       the type-directed print family, called through its *_internal entry points
+ *      fn:  bp / bpl   gp_bytes_print / println into malloc(n)          "r=<ret> w=<first min(ret,n) bytes>"
+ *           snp / snpl gp_str_n_print / n_println into a heap string    "r=<ret> len=<length> w=<content>"
+ *           sp / spl   gp_str_print / println (growing heap string)     "r=<ret> len=<length> w=<content>"
+ *           fp / fpl   gp_file_print / println to a temporary file      "r=<ret> w=<file content>"
+ *      obj: c a A (char kinds) h H i I l L q Q (short..unsigned long long) b (bool) f d (float, double: bits)
+ *           t<hex> (char*) g<hex> (GPString) p<dec> (pointer) F<hex> (format string; its arguments follow as objs)
+ */
+static int print_op(void);
 
 #define MAXG 6
 #define MAXD 8
@@ -26,6 +38,7 @@ int main(void)
     setvbuf(stdout, NULL, _IOLBF, 0);
     while (vp_next()) {
         if (vp_ntok < 3 || strcmp(vp_tok[0], "pf") != 0) { puts("bad-op"); continue; }
+        if (!strcmp(vp_tok[1], "print")) { if (!print_op()) puts("bad-op"); continue; }
         int is_ref = !strcmp(vp_tok[1], "ref");
         int is_pf  = !strcmp(vp_tok[1], "pf");
         if (!is_ref && !is_pf) { puts("bad-op"); continue; }
@@ -77,4 +90,65 @@ int main(void)
         free(fmt);
     }
     return 0;
+}
+
+static int print_op(void)
+{
+    if (vp_ntok < 5) return 0;
+    const char* fn = vp_tok[2];
+    size_t n = strtoull(vp_tok[3], NULL, 10);
+    GPPrintable objs[16]; size_t cnt = 0;
+    uint64_t g[MAXG] = {0}; double d[MAXD] = {0};
+    void* owned[16] = {0}; GPString gs[16] = {0};
+    int ng = 0, nd = 0;
+    for (int a = 4; a < vp_ntok; a++) {
+        const char* t = vp_tok[a];
+        if (cnt >= 16) return 0;
+        GPType ty; int isd = 0; const char* ident = "x";
+        switch (t[0]) {
+        case 'c': ty = GP_CHAR; break;          case 'a': ty = GP_SIGNED_CHAR; break;  case 'A': ty = GP_UNSIGNED_CHAR; break;
+        case 'h': ty = GP_SHORT; break;         case 'H': ty = GP_UNSIGNED_SHORT; break;
+        case 'i': ty = GP_INT; break;           case 'I': ty = GP_UNSIGNED; break;
+        case 'l': ty = GP_LONG; break;          case 'L': ty = GP_UNSIGNED_LONG; break;
+        case 'q': ty = GP_LONG_LONG; break;     case 'Q': ty = GP_UNSIGNED_LONG_LONG; break;
+        case 'b': ty = GP_BOOL; break;
+        case 'f': ty = GP_FLOAT; isd = 1; break; case 'd': ty = GP_DOUBLE; isd = 1; break;
+        case 't': ty = GP_CHAR_PTR; break;      case 'g': ty = GP_STRING; break;       case 'p': ty = GP_PTR; break;
+        case 'F': ty = GP_CHAR_PTR; ident = "\"fmt\""; break;
+        default: return 0;
+        }
+        if (isd) { if (nd >= MAXD) return 0; uint64_t b = strtoull(t + 1, NULL, 16); memcpy(&d[nd++], &b, 8); }
+        else {
+            if (ng >= MAXG) return 0;
+            if (t[0] == 't' || t[0] == 'F') { size_t l; uint8_t* b = vp_hex(t + 1, &l); char* c = malloc(l + 1); memcpy(c, b, l); c[l] = 0; free(b);
+                                               owned[cnt] = c; g[ng++] = (uint64_t)(uintptr_t)c; }
+            else if (t[0] == 'g') { size_t l; uint8_t* b = vp_hex(t + 1, &l); gs[cnt] = gp_str_new(gp_heap, l, ""); gp_str_copy(&gs[cnt], b, l); free(b);
+                                    g[ng++] = (uint64_t)(uintptr_t)gs[cnt]; }
+            else if (strchr("IHLQAp", t[0])) g[ng++] = strtoull(t + 1, NULL, 10);
+            else g[ng++] = (uint64_t)strtoll(t + 1, NULL, 10);
+        }
+        objs[cnt].identifier = ident; *(GPType*)&objs[cnt].type = ty; cnt++;
+    }
+#define VA g[0], g[1], g[2], g[3], g[4], g[5], d[0], d[1], d[2], d[3], d[4], d[5], d[6], d[7]
+    if (!strcmp(fn, "bp") || !strcmp(fn, "bpl")) {
+        uint8_t* buf = malloc(n); memset(buf, 0xAA, n);
+        size_t r = fn[2] ? gp_bytes_println_internal(buf, n, cnt, objs, VA) : gp_bytes_print_internal(buf, n, cnt, objs, VA);
+        printf("r=%zu w=", r); vp_puthex(buf, r < n ? r : n); puts(""); free(buf);
+    } else if (!strcmp(fn, "snp") || !strcmp(fn, "snpl") || !strcmp(fn, "sp") || !strcmp(fn, "spl")) {
+        GPString s = gp_str_new(gp_heap, 1, "");
+        gp_str_copy(&s, "#", 1);                       /* previous content must be replaced */
+        size_t r = !strcmp(fn, "snp") ? gp_str_n_print_internal(&s, n, cnt, objs, VA)
+                 : !strcmp(fn, "snpl") ? gp_str_n_println_internal(&s, n, cnt, objs, VA)
+                 : !strcmp(fn, "sp") ? gp_str_print_internal(&s, cnt, objs, VA)
+                 : gp_str_println_internal(&s, cnt, objs, VA);
+        const char* cs = gp_cstr(s);                   /* the terminator must still fit */
+        printf("r=%zu len=%zu w=", r, gp_str_length(s)); vp_puthex(cs, gp_str_length(s)); puts(""); gp_str_delete(s);
+    } else if (!strcmp(fn, "fp") || !strcmp(fn, "fpl")) {
+        FILE* f = tmpfile(); if (!f) return 0;
+        size_t r = fn[2] ? gp_file_println_internal(f, cnt, objs, VA) : gp_file_print_internal(f, cnt, objs, VA);
+        long sz = ftell(f); rewind(f); char* buf = malloc(sz + 1); size_t got = fread(buf, 1, sz, f); fclose(f);
+        printf("r=%zu w=", r); vp_puthex(buf, got); puts(""); free(buf);
+    } else return 0;
+    for (size_t i = 0; i < 16; i++) { free(owned[i]); if (gs[i]) gp_str_delete(gs[i]); }
+    return 1;
 }
